@@ -33,6 +33,10 @@ type Case struct {
 	Size    int    `json:"size"` // length of the UDP reply (12..4095)
 	TcpSize int    `json:"tcp_size"`
 	QV      int    `json:"qv"` // query variant
+	// Prime: "tcpfail" = before the recorded exchange, another exchange on the SAME upstream gets a truncated UDP reply and
+	// its TCP retry fails (server closes after reading the query). Not recorded: the recorded exchange's outcome must
+	// follow its own UDP reply whatever happened to earlier exchanges.
+	Prime string `json:"prime,omitempty"`
 }
 
 // SeqJob: several exchanges on ONE upstream, steered by the environment steps of a behaviour of
@@ -78,14 +82,29 @@ type Result struct {
 }
 
 type rec struct {
-	mu sync.Mutex
-	ev []map[string]any
+	mu    sync.Mutex
+	ev    []map[string]any
+	quiet bool // priming exchange in progress: nothing is recorded
 }
 
 func (r *rec) log(e map[string]any) {
 	r.mu.Lock()
-	r.ev = append(r.ev, e)
+	if !r.quiet {
+		r.ev = append(r.ev, e)
+	}
 	r.mu.Unlock()
+}
+
+func (r *rec) setQuiet(q bool) {
+	r.mu.Lock()
+	r.quiet = q
+	r.mu.Unlock()
+}
+
+func (r *rec) isQuiet() bool {
+	r.mu.Lock()
+	defer r.mu.Unlock()
+	return r.quiet
 }
 
 func mkQuery(rng *rand.Rand, qv int) []byte {
@@ -135,6 +154,8 @@ func runOnce(c Case, timeout time.Duration, try int) (res Result) {
 	tc := c.Word&0x0200 != 0
 	oth := c.Word&0xfdff != 0
 	r.log(map[string]any{"ev": "Start", "mode": c.Mode, "tc": tc, "oth": oth})
+	priming := c.Prime == "tcpfail"
+	r.setQuiet(priming)
 
 	var uc net.PacketConn
 	var tl net.Listener
@@ -189,6 +210,9 @@ func runOnce(c Case, timeout time.Duration, try int) (res Result) {
 			cnt.Unlock()
 			r.log(map[string]any{"ev": "UdpQuery", "same": bytes.Equal(b[2:n], q[2:])})
 			rep := append([]byte(nil), udpReply...)
+			if r.isQuiet() {
+				rep = mkReply(b[:n], 0x8380, 64, 0x33) // priming exchange: a truncated reply
+			}
 			copy(rep[:2], b[:2])
 			// not instantly: the pinned transport may drop a reply that arrives before the caller parks (C02)
 			time.Sleep(2 * time.Millisecond)
@@ -224,7 +248,7 @@ func runOnce(c Case, timeout time.Duration, try int) (res Result) {
 							return
 						}
 						r.log(map[string]any{"ev": "TcpQuery", "same": len(body) >= 2 && bytes.Equal(body[2:], q[2:])})
-						if c.Mode == "fails" {
+						if c.Mode == "fails" || r.isQuiet() {
 							r.log(map[string]any{"ev": "TcpClose"})
 							return
 						}
@@ -256,6 +280,21 @@ func runOnce(c Case, timeout time.Duration, try int) (res Result) {
 			return
 		}
 		defer u.Close()
+		if priming {
+			pq := mkQuery(rng, c.QV+1)
+			pctx, pcancel := context.WithTimeout(context.Background(), timeout)
+			_, perr := u.ExchangeContext(pctx, pq)
+			timedOut := pctx.Err() != nil
+			pcancel()
+			if perr == nil || timedOut {
+				res.Inconclusive = fmt.Sprintf("priming exchange did not fail as scripted (err=%v, ctx ended=%v)", perr, timedOut)
+				return
+			}
+			cnt.Lock()
+			cnt.acc, cnt.uq = 0, 0
+			cnt.Unlock()
+			r.setQuiet(false)
+		}
 		ctx, cancel := context.WithTimeout(context.Background(), timeout)
 		defer cancel()
 		rp, err := u.ExchangeContext(ctx, append([]byte(nil), q...))
@@ -280,7 +319,7 @@ func runOnce(c Case, timeout time.Duration, try int) (res Result) {
 			}
 		}
 	}()
-	if res.Skipped != "" || res.Panic != "" {
+	if res.Skipped != "" || res.Panic != "" || (res.Inconclusive != "" && res.Kind == "") {
 		return
 	}
 	r.log(map[string]any{"ev": "Result", "kind": res.Kind, "idok": res.IDOk})
